@@ -204,6 +204,55 @@ func TestVerifC03Engine(t *testing.T) {
 			m.Sample(map[string]any{"routes": fmt.Sprint(routes)})
 		}
 	}
+	// rejection clause at the engine level: an invalid registration anywhere inside an AddRoutes
+	// group (duplicate pattern, path not starting with '/', unsupported method) must make
+	// bindRoutes fail, whatever its position in the group.
+	var rejected int64
+	nrej := vk.N(300, 6000)
+	for idx := 1; idx <= nrej; idx++ {
+		size := 2 + r.Intn(5)
+		pos := r.Intn(size)
+		kind := r.Intn(4)
+		var rs []Route
+		h := func(w http.ResponseWriter, r *http.Request) {}
+		for i := 0; i < size; i++ {
+			rs = append(rs, Route{Method: []string{"GET", "POST", "PUT", "DELETE", "HEAD", "OPTIONS", "PATCH"}[r.Intn(7)], Path: fmt.Sprintf("/g%d/:x/r%d", idx, i), Handler: h})
+		}
+		what := "valid group"
+		switch kind {
+		case 0:
+			other := (pos + 1 + r.Intn(size-1)) % size
+			rs[pos].Method, rs[pos].Path = rs[other].Method, rs[other].Path
+			if r.Intn(2) == 0 {
+				rs[pos].Path += "/"
+			}
+			what = "duplicate pattern"
+		case 1:
+			rs[pos].Path = rs[pos].Path[1:]
+			what = "path not starting with /"
+		case 2:
+			rs[pos].Method = []string{"FOO", "get", "TRACE", "CONNECT"}[r.Intn(4)]
+			what = "unsupported method"
+		}
+		desc := fmt.Sprintf("case=%d;group of %d routes, %s at position %d: %v %v", 100000+idx, size, what, pos, rs[pos].Method, rs[pos].Path)
+		ng := newEngine(Config{})
+		// half of the cases: one group; the others: the offending route in the first of two groups
+		ng.addRoutes(featuredRoutes{routes: rs})
+		if idx%2 == 0 {
+			ng.addRoutes(featuredRoutes{routes: []Route{{Method: "GET", Path: fmt.Sprintf("/tail%d", idx), Handler: h}}})
+		}
+		err := ng.bindRoutes(router.NewRouter())
+		switch {
+		case kind == 3 && err != nil:
+			m.Violate("C03:engine-bind-rejected-valid-table", desc, "bindRoutes: %v", err)
+		case kind != 3 && err == nil:
+			m.Violate("C03:engine-invalid-registration-accepted:"+strings.ReplaceAll(what, " ", "-"), desc, "bindRoutes returned nil")
+		case kind != 3:
+			rejected++
+		}
+		m.Case(vk.Digest(desc), kind != 3)
+	}
+	m.Count("engine_groups_rejected", rejected)
 	m.Count("requests_matched", matched)
 	m.Count("requests_404", nf)
 	m.Count("requests_405", na)
